@@ -84,10 +84,10 @@ def _gen(rng, tiny=True):
             ops.append(("add", rng.choice(pool)))
         elif x < 0.9:
             ops.append(("rem", rng.choice(pool)))
-        elif x < 0.95:
+        elif x < 0.94:
             ops.append(("resize", rng.choice([None, q, q + 1, q + 2, max(3, q - 1)])))
         else:
-            ops.append(("merge", rng.choice([3, 4, q]), [rng.randrange(1 << 32) for _ in range(rng.randint(0, 4))]))
+            ops.append(("merge", rng.choice([3, 4, q]), [rng.choice(pool) if rng.random() < 0.6 else rng.randrange(1 << 32) for _ in range(rng.randint(0, 5))]))
     return {"q": q, "auto": rng.random() < 0.5, "ops": ops, "probes": [h() for _ in range(6)] + [rng.randrange(1 << 32) for _ in range(3)]}
 
 
